@@ -31,6 +31,7 @@ PROP = 'C11'
 A_, B_, C_, X_ = 97, 98, 99, 120
 ALPHA = [A_, B_, C_, X_]
 UNANALYSABLE = ('strict', 'starStrict')       # no analyze_traits specialisation exists: analyze<> does not compile
+ALIASED_TRAITS = ('ifApply',)                 # analyze_traits< Name, if_apply< R, A... > > is R's own entry under another name; the model's table has a one-element seq instead: kept out of the C11 corpus
 STEP_BUDGET = 200000
 DEPTH_LIMIT = 3000
 JOBS = 6
@@ -70,7 +71,7 @@ def _until_chain_cyclic(g: Grammar) -> bool:
 
 def usable(g: Grammar) -> bool:
     """Can `analyze< Rule >` be instantiated for this grammar at all?"""
-    return (all(nd.kind not in UNANALYSABLE for nd in g.nodes.values())
+    return (all(nd.kind not in UNANALYSABLE and nd.kind not in ALIASED_TRAITS for nd in g.nodes.values())
             and not any(_has_rep_opt0(t) for t in g.named.values())
             and not _until_chain_cyclic(g))
 
@@ -259,7 +260,7 @@ WRAPS = [
 def fam_left_recursion(rng: random.Random, limit: Optional[int]) -> List[Tuple[Grammar, List[int], Dict]]:
     """R = K[ ..., W[R], ... ]: the rule itself in every slot of every kind (other slots consuming or
     nullable), directly or through every wrapper; plus two- and three-rule cycles."""
-    ks = [k for k in corpus.kinds(False, True) if not k[0].startswith('strict') and not k[0].startswith('star_strict')]
+    ks = [k for k in corpus.kinds(False, True) if not k[0].startswith('strict') and not k[0].startswith('star_strict') and k[3] != 'apply']
     fillers = [('consuming', a), ('nullable', lambda: P('opt', a())), ('lookahead', lambda: P('at', a()))]
     combos = []
     for ki, (kname, nslots, build, fam) in enumerate(ks):
